@@ -1,4 +1,2 @@
 use biodivine_lib_bdd::{boolean_expression::BooleanExpression, Bdd, BddVariableSet};
 use biodivine_lib_bdd::{bio_den, bv_index, vs_index, restrict_list, esem, bio_nv, val_at, vs_n, BddValuation};
-// the flat unit file has no module tree: crate::datatypes::X is X
-pub mod datatypes { pub use super::{Var, Term}; }
